@@ -468,6 +468,9 @@ impl TTS {
                 TTSCommandValue::XPath(xpath) => {
                     // the id is used as it is (it is a name, not text to be spoken: a one letter id such as 'x' is not to be spelled out)
                     let id = xpath.evaluate(rules_with_context.get_context(), mathml)?.into_string();
+                    if id.is_empty() {
+                        return Ok( "".to_string() );     // nothing to point at (a literal of an intent has no id)
+                    }
                     return Ok( format!("<{}='{}'/>", tag_and_attr, id) );
                 },
                 _ => bail!("Implementation error: found bookmark value that did not evaluate to a string"),
